@@ -3626,10 +3626,16 @@ impl G {
     let gi = if self.rng.chance(if loops_prof { 5 } else { 2 }, 20) {
       let ci = self.cidx[cname];
       if !self.classes[ci].members.iter().any(|m| m.starts_with("function idl(")) {
-        self.classes[ci].members.push("function idl(x: int, k: int): int = if k <= 0 { x } else { ".to_string() + cname + ".idl(x, k - 1) }");
+        // (k is halved: not an induction variable the loop optimiser can solve, so the inner loop stays)
+        self.classes[ci].members.push("function idl(x: int, k: int): int = if k <= 0 { x } else { ".to_string() + cname + ".idl(x, k / 2) }");
       }
       self.feat("loop-guard-inner-loop");
-      format!("{cname}.idl(i, {})", 1 + self.rng.below(3))
+      // the trip count of the inner loop depends on run-time data (a literal would be solved at compile time)
+      if n_idx.is_some() && self.rng.chance(1, 2) {
+        format!("{cname}.idl(i, n)")
+      } else {
+        format!("{cname}.idl(i, i)")
+      }
     } else {
       "i".to_string()
     };
